@@ -536,8 +536,7 @@ def prepare(lines):
     return cfail
 
 
-HARNESS_FLAGS = ["-I", lib.BUILD, "-L", lib.BUILD, "-lc13_O0", "-lc13_O2", "-Wl,-rpath," + lib.BUILD,
-                 "-Wl,--no-as-needed"]
+HARNESS_FLAGS = ["-I", lib.BUILD, "-L", lib.BUILD, "-Wl,--no-as-needed", "-lc13_O0", "-lc13_O2", "-Wl,-rpath," + lib.BUILD]
 
 
 def regenerate(ctx):
